@@ -33,7 +33,7 @@ def impl_task(case, learner):
          'beta2': case['beta2'], 'lambda': case['lambda'], 'policy': case['policy']}
     if learner.startswith('dict_ndl'):
         t['learner'] = 'dict_ndl'
-        t['form'] = case.get('form', 'list')
+        t['form'] = case.get('form_dict', case.get('form', 'list'))
         if case.get('init_cells') is not None:
             t['init'] = case['init_cells']
             t['init_form'] = 'dict'
@@ -43,7 +43,7 @@ def impl_task(case, learner):
         t['n_jobs'] = case.get('n_jobs', 2)
         t['per_job'] = case.get('per_job', 10)
         t['per_file'] = case.get('per_file', 10000000)
-        t['form'] = case.get('form', 'path')
+        t['form'] = case.get('form_ndl', case.get('form', 'path'))
         t['given_tmp'] = case.get('given_tmp', False)
         if case.get('init_lw') is not None:
             t['init'] = case['init_lw']
